@@ -541,29 +541,67 @@ func runMerkle(s *Session, ops []merkleOp) {
 				e.inc("merkle.corruptions")
 				e.reachAdd(fmt.Sprintf("free n=%d k=%d", min(op.n, 40), len(op.freed)))
 			case "diff":
-				// rhp/v2 diff proofs with swap / trim actions, no stream involved
+				// rhp/v2 diff proofs for a sequence of swap / trim / append actions, no stream involved
 				roots := hashes(op.n, op.sectorSeed)
-				a, b := uint64(cs[0].which%op.n), uint64(cs[0].pos%op.n)
-				trim := uint64(cs[1].which % op.n)
-				actions := []rhp2.RPCWriteAction{{Type: rhp2.RPCWriteActionSwap, A: a, B: b}, {Type: rhp2.RPCWriteActionTrim, A: trim}}
-				th, lh := rhp2.BuildDiffProof(actions, roots)
-				after := append([]types.Hash256(nil), roots...)
-				after[a], after[b] = after[b], after[a]
-				after = after[:uint64(len(after))-trim]
-				oldRoot, newRoot := ref.TreeRoot(roots), ref.TreeRoot(after)
+				model := append([]types.Hash256(nil), roots...)
+				var actions []rhp2.RPCWriteAction
+				var appendRoots []types.Hash256
+				trimmedAppend := false // an appended root may have been trimmed away again: no longer a covered datum
+				desc := ""
+				for j := 0; j < 1+cs[0].bit%4; j++ {
+					c := cs[j%len(cs)]
+					switch k := (c.which + j) % 3; {
+					case k == 0 && len(model) >= 2:
+						a, b := uint64(c.which%len(model)), uint64(c.pos%len(model))
+						actions = append(actions, rhp2.RPCWriteAction{Type: rhp2.RPCWriteActionSwap, A: a, B: b})
+						model[a], model[b] = model[b], model[a]
+						desc += fmt.Sprintf(" swap(%d,%d)", a, b)
+					case k == 1 && len(model) >= 1:
+						tr := uint64(1 + c.pos%min(len(model), 3))
+						trimmedAppend = trimmedAppend || len(appendRoots) > 0
+						actions = append(actions, rhp2.RPCWriteAction{Type: rhp2.RPCWriteActionTrim, A: tr})
+						model = model[:uint64(len(model))-tr]
+						desc += fmt.Sprintf(" trim(%d)", tr)
+					default:
+						r := hashes(1, op.sectorSeed+uint64(200+j))[0]
+						actions = append(actions, rhp2.RPCWriteAction{Type: rhp2.RPCWriteActionAppend})
+						appendRoots = append(appendRoots, r)
+						model = append(model, r)
+						desc += " append"
+					}
+				}
+				desc = fmt.Sprintf("n=%d%s", op.n, desc)
+				var th, lh []types.Hash256
+				if p := guardPanic(func() { th, lh = rhp2.BuildDiffProof(actions, roots) }); p != "" {
+					bad("diff-proof-panic", "BuildDiffProof panicked for %s: %s", desc, p)
+					continue
+				}
+				oldRoot, newRoot := ref.TreeRoot(roots), ref.TreeRoot(model)
 				if uint64(len(th)+len(lh)) != rhp2.DiffProofSize(actions, uint64(op.n)) {
-					bad("diff-proof-size", "DiffProofSize disagrees with BuildDiffProof for n=%d swap(%d,%d) trim %d", op.n, a, b, trim)
+					bad("diff-proof-size", "DiffProofSize disagrees with BuildDiffProof for %s", desc)
 				}
-				if !rhp2.VerifyDiffProof(actions, uint64(op.n), th, lh, oldRoot, newRoot, nil) {
-					bad("honest-rejected", "honest diff proof rejected: n=%d swap(%d,%d) trim %d", op.n, a, b, trim)
+				accepted := false
+				if p := guardPanic(func() { accepted = rhp2.VerifyDiffProof(actions, uint64(op.n), th, lh, oldRoot, newRoot, appendRoots) }); p != "" {
+					bad("diff-proof-panic", "VerifyDiffProof panicked on an honest proof for %s: %s", desc, p)
+					continue
 				}
-				if len(th) > 0 && rhp2.VerifyDiffProof(actions, uint64(op.n), flipHash(th, cs[2]), lh, oldRoot, newRoot, nil) {
-					bad("diff-proof-unsound", "diff proof accepted with a corrupted tree hash: n=%d swap(%d,%d) trim %d", op.n, a, b, trim)
+				if !accepted {
+					bad("honest-rejected", "honest diff proof rejected: %s", desc)
 				}
-				if len(lh) > 0 && rhp2.VerifyDiffProof(actions, uint64(op.n), th, flipHash(lh, cs[3]), oldRoot, newRoot, nil) {
-					bad("diff-proof-unsound", "diff proof accepted with a corrupted leaf hash: n=%d swap(%d,%d) trim %d", op.n, a, b, trim)
+				if len(th) > 0 && rhp2.VerifyDiffProof(actions, uint64(op.n), flipHash(th, cs[2]), lh, oldRoot, newRoot, appendRoots) {
+					bad("diff-proof-unsound", "diff proof accepted with a corrupted tree hash: %s", desc)
+				}
+				if len(lh) > 0 && rhp2.VerifyDiffProof(actions, uint64(op.n), th, flipHash(lh, cs[3]), oldRoot, newRoot, appendRoots) {
+					bad("diff-proof-unsound", "diff proof accepted with a corrupted leaf hash: %s", desc)
+				}
+				if rhp2.VerifyDiffProof(actions, uint64(op.n), th, lh, oldRoot, flipHash([]types.Hash256{newRoot}, cs[4])[0], appendRoots) {
+					bad("diff-proof-unsound", "diff proof accepted with a corrupted new root: %s", desc)
+				}
+				if len(appendRoots) > 0 && !trimmedAppend && rhp2.VerifyDiffProof(actions, uint64(op.n), th, lh, oldRoot, newRoot, flipHash(appendRoots, cs[5])) {
+					bad("diff-proof-unsound", "diff proof accepted with a corrupted appended root: %s", desc)
 				}
 				e.inc("merkle.corruptions")
+				e.reachAdd(fmt.Sprintf("diff n=%d actions=%d", min(op.n, 40), len(actions)))
 			}
 			e.logf("op %d %s verified", i, op.kind)
 		}
